@@ -396,6 +396,8 @@ impl<W: Write> StackRunner<W> {
             }
             "disc" => {
                 let who = gets(st, "who").to_string();
+                // a server side disconnect of an id the message layer does not list is a no-op: there is no session to end
+                let ok = who != "server" || w.server.is_connected(id);
                 match who.as_str() {
                     "server" => w.server.disconnect(id),
                     "client" => {
@@ -410,7 +412,7 @@ impl<W: Write> StackRunner<W> {
                     }
                     _ => {}
                 }
-                self.emit(json!({"ev":"disc","c":id,"who":who}));
+                self.emit(json!({"ev":"disc","c":id,"who":who,"ok":ok}));
             }
             "round" => {
                 // good round(s): everything passes, both sides step, applications drain
